@@ -62,6 +62,13 @@ def lock_analysis(db, fn):
 
     def is_lock_decl(v):
         init = v.get('init')
+        # the storage's own lock(): a proxy that locks in its constructor and unlocks in its destructor (R-LOCK-PROXY decides that)
+        i0 = sym.strip_casts(init) if isinstance(init, dict) else None
+        while isinstance(i0, dict) and i0.get('k') == 'construct' and len(i0.get('args', [])) == 1 and i0.get('ctor') in ('move', 'copy'):
+            i0 = sym.strip_casts(i0['args'][0])
+        if isinstance(i0, dict) and i0.get('k') == 'call' and i0.get('short') == 'lock' and i0.get('cls') == fn.cls and strip_this(i0.get('recv')) \
+                and 'locked_allocator' in str(v.get('t', '')):
+            return True
         if not isinstance(init, dict) or init.get('k') != 'construct':
             return False
         ty = v['t']
@@ -315,8 +322,16 @@ def check_proxy(run, db):
                 run.violation('R-LOCK-PROXY', inst, f.loc, why, site={'function': 'detail::locked_allocator::<dtor>', 'role': 'unlock on destruction'})
         elif f.kind == 'move-ctor':
             n += 1
-            nulls = [e for e in f.events() if e['ev'] == 'assign' and sym.canon(e['lhs'], {0: 'other'}) == '$other.mutex_' and e['rhs'].get('null')]
-            if nulls and flow.must_pass_through(f, lambda e: e in nulls):
+            # by value: on every path the source's mutex pointer ends up null and this proxy holds the source's old one (assignment,
+            # std::swap with a null-initialised member ... whatever the spelling)
+            rl = {0: 'other'}
+            S = [x for x in fwd.summarize(f, db=db, roles=rl, no_forward=True, inline_pred=common.inline_private) if x.end == 'return']
+            def final(x, key):
+                if key in x.fields:
+                    return sym.canon(x.fields[key], rl)
+                ws = [w[1] for w in x.writes if w[0] == key]
+                return ws[-1] if ws else None
+            if S and all(final(x, '$other.mutex_') == 'null' and final(x, 'this.mutex_') == '$other.mutex_' for x in S):
                 run.ok('R-LOCK-PROXY', inst, f.loc, 'move constructor nulls the source\'s mutex (no double unlock)')
             else:
                 run.violation('R-LOCK-PROXY', inst, f.loc, 'move constructor leaves the source armed: the mutex would be unlocked twice',
